@@ -248,6 +248,49 @@ func scenarioConfigs() []*config {
 			Workers: []workerSpec{{Name: "w1", MaxCalls: 3, Busy: []string{"ok", "exec"}}},
 		},
 		{
+			Name: "S21-dynamic-queue-revival", Props: []string{"C01", "C02", "C06"},
+			Bounds: tiny, Shards: 1,
+			Doc:      "worker-created queue whose only worker synchronizes once and vanishes (worker timeout 1: the queue is scheduled for removal 2 ticks later); a NEW worker arrives at any idle moment (before or after the worker timeout / the queue's removal instant) and long-polls for up to 3 ticks; a client's Execute arrives at any later idle moment, the clock runs through the removal instant",
+			MaxTicks: 4, WorkerTimeout: 1, QueueTimeout: 2, IdleSync: 3,
+			Workers: []workerSpec{
+				{Name: "w1", MaxCalls: 1, Idle: []string{"pidle"}},
+				{Name: "w2", Stage: 1, MaxCalls: 3, Busy: []string{"ok", "exec"}},
+			},
+			Clients: []clientSpec{{Name: "c1", Stage: 2, Calls: []string{"exec A i1"}}},
+		},
+		{
+			Name: "S6b-retry-limit-after-size-class-retry", Props: []string{"C01", "C02", "C06", "C07"},
+			Bounds: tiny, Shards: 1,
+			Doc:         "predeclared size classes {1,2}, WorkerTaskRetryCount=1, the learner always asks for a retry on the largest size class; the small worker may redundantly re-synchronize (idle) before it reports the failure, the large worker may do the same before it reports its result: redundant deliveries are counted per assignment",
+			Predeclared: pre12, MaxTicks: 2, RetryAlways: true,
+			Clients: []clientSpec{{Name: "c1", Calls: []string{"exec A i1"}}},
+			Workers: []workerSpec{
+				{Name: "w1", SizeClass: 1, MaxCalls: 3, Busy: []string{"fail", "idle"}},
+				{Name: "w2", SizeClass: 2, Stage: 1, MaxCalls: 4, Busy: []string{"ok", "idle"}},
+			},
+		},
+		{
+			Name: "S6c-terminate-vs-size-class-retry", Props: []string{"C01", "C02", "C06", "C14"},
+			Doc:         "predeclared size classes {1,2}; an operator blocks in TerminateWorkers(small worker) while that worker runs the task; the small worker fails it, the learner asks for a retry on the largest size class, and the task goes either straight to a large worker that is parked in an idle Synchronize or back to the queue; the large worker then works for 2 ticks; the client may have left in the meantime",
+			Predeclared: pre12, MaxTicks: 4, RetryAlways: true, IdleSync: 5, WorkerTimeout: 4, Bounds: b1,
+			Clients: []clientSpec{{Name: "c1", Calls: []string{"exec A i1"}, Cancels: 1}},
+			Workers: []workerSpec{
+				{Name: "w1", SizeClass: 1, MaxCalls: 2, Busy: []string{"sleep1", "fail"}},
+				{Name: "w2", SizeClass: 2, MaxCalls: 2, Busy: []string{"sleep2", "ok"}},
+			},
+			Operators: []operatorSpec{{Name: "op", Stage: 1, Calls: []string{"term w1"}, Cancels: 1}},
+		},
+		{
+			Name: "S22-reattach-after-completion", Props: []string{"C02", "C03", "C06"},
+			Doc:         "Execute runs to completion (or its client leaves first), the stream ends; k = 0..4 ticks later (no-waiter timeout 3) a second client re-attaches to the operation by name with WaitExecution: inside the window it must get the final result, NOT_FOUND is only legitimate once the window has expired",
+			Predeclared: pre0, MaxTicks: 4, NoWaiter: 3,
+			Clients: []clientSpec{
+				{Name: "c1", Calls: []string{"exec A i1"}, Cancels: 1},
+				{Name: "c2", Stage: 1, Calls: []string{"wait c1.0"}},
+			},
+			Workers: []workerSpec{{Name: "w1", MaxCalls: 2, Busy: []string{"ok"}}},
+		},
+		{
 			Name: "S12-crash-points", Props: []string{"C01", "C02", "C06", "C07"},
 			Doc:      "worker-created queue; client, worker and operator may each stop for good at any point (cancellation, or simply never calling again) while the clock runs through all timeouts",
 			MaxTicks: 5, IdleSync: 2,
